@@ -67,7 +67,7 @@ func c04RecN(r *Rec) []N {
 // stages whose model is independent of the sign of the values (so scripts may use -3..3)
 var c04SignSafe = map[string]bool{"Max": true, "Min": true, "Sum": true, "Count": true, "Clamp": true, "Skip": true, "Take": true,
 	"TakeLast": true, "SkipLast": true, "Head": true, "Tail": true, "ElementAt": true, "ElementAtOrDefault": true, "IgnoreElements": true,
-	"DefaultIfEmpty": true, "ToSliceFlatten": true, "StartWith": true, "EndWith": true, "BufferWithCount": true, "Distinct": true,
+	"DefaultIfEmpty": true, "ToSliceFlatten": true, "ToSliceKeep": true, "StartWith": true, "EndWith": true, "BufferWithCount": true, "Distinct": true,
 	"MaterializeDematerialize": true, "Serialize": true, "Tap": true, "MapTo": true}
 
 // c04Script: values over the alphabet {1,2,3} (repeats allowed), length 0..5, sometimes up to 8, rarely
@@ -186,6 +186,7 @@ func c04Observe(e *Env, o ro.Observable[int], name string) (*Rec, *SubHandle, bo
 // C04.stage and C04.chain
 
 func runC04Pipeline(e *Env) {
+	defer e.CheckHeld("C04")
 	installC04Models()
 	sc := e.Sc
 	minSt, maxSt := 1, 1
@@ -206,6 +207,48 @@ func runC04Pipeline(e *Env) {
 	}
 	got := c04RecN(rec)
 	if memberN(want, got) {
+		// Ints[again]: the same pipeline value is subscribed once more while its source plays another
+		// input: the documented meaning applies to every subscription, whatever an earlier one saw
+		variant := c12Variant(&Scn{Sources: sc.Sources, Ints: map[string]int{"vary": sc.Int("again", 0)}})
+		if variant == nil || e.K.Capped() {
+			return
+		}
+		vsc := cloneScn(sc)
+		vsc.Sources[0].Script = variant
+		if !c04ValidPipeline(vsc, minSt, maxSt) {
+			return
+		}
+		if len(sc.Stages) > 1 {
+			for _, st := range sc.Stages {
+				if st.Op == "Max" {
+					return // Max over an empty input is a recorded finding, localised only on first subscriptions
+				}
+			}
+		}
+		want2 := c04Expected(vsc)
+		if want2 == nil {
+			return
+		}
+		for _, s := range e.srcs {
+			if s.ID == 0 {
+				s.Attempts = [][]Step{variant}
+			}
+		}
+		rec2, _, ok := c04Observe(e, o, "again")
+		if !ok {
+			return
+		}
+		if got2 := c04RecN(rec2); !memberN(want2, got2) {
+			clause := "second-subscription"
+			if len(sc.Stages) == 1 {
+				// the recorded finding about Max over an empty source keeps its own clause
+				if c := c04ModelClause(sc.Stages[0].Op, scriptToN(variant)); c != "model:"+sc.Stages[0].Op {
+					clause = c
+				}
+			}
+			c04Violate(e, clause, fmt.Sprintf("%s: a second subscription of the same pipeline, its source now playing [%s], delivered [%s]; documented: %s (the first subscription over [%s] delivered [%s])",
+				c04DescribeStages(sc), traceN(scriptToN(variant)), traceN(got2), setN(want2), traceN(scriptToN(sc.Sources[0].Script)), traceN(got)))
+		}
 		return
 	}
 	in := scriptToN(sc.Sources[0].Script)
@@ -306,6 +349,7 @@ func init() {
 				sc.Sources = []SrcSpec{{Mode: g.Pick("sync", "sync", "sync", "async"), Script: script}}
 				addStage(g, sc, name, nvalues(script), "sync")
 				sc.SetInt("seqmode", 1)
+				sc.SetInt("again", g.PickInt(0, 0, 1, 2))
 				if c04ValidPipeline(sc, 1, 1) {
 					return sc
 				}
@@ -329,6 +373,7 @@ func init() {
 					addStage(g, sc, names[g.Intn(len(names))], nvalues(script), "sync")
 				}
 				sc.SetInt("seqmode", 1)
+				sc.SetInt("again", g.PickInt(0, 0, 1, 2))
 				if c04ValidPipeline(sc, 2, 8) {
 					return sc
 				}
@@ -957,6 +1002,104 @@ var c04VarFams = []*c04VarFam{
 			c04VS("Zip2", func(s []ro.Observable[int]) ro.Observable[int] { return ro.Map(t2i)(ro.Zip2(s[0], s[1])) }),
 			c04VS("ZipWith", func(s []ro.Observable[int]) ro.Observable[int] { return ro.Map(t2i)(ro.ZipWith[int](s[1])(s[0])) }),
 			c04VS("ZipWith1", func(s []ro.Observable[int]) ro.Observable[int] { return ro.Map(t2i)(ro.ZipWith1[int](s[1])(s[0])) }),
+		}
+	}},
+	// the fixed arities are hand-written separately in the library: each against the variadic form
+	{name: "Zip3", nsrc: 3, mk: func(k int, lg *c04Log, _ []int) []c04Variant {
+		return []c04Variant{
+			c04VS("Zip", func(s []ro.Observable[int]) ro.Observable[int] { return ro.Map(sl2i)(ro.Zip(s...)) }),
+			c04VS("Zip3", func(s []ro.Observable[int]) ro.Observable[int] {
+				return ro.Map(func(t lo.Tuple3[int, int, int]) int { return sl2i([]int{t.A, t.B, t.C}) })(ro.Zip3(s[0], s[1], s[2]))
+			}),
+			c04VS("ZipWith2", func(s []ro.Observable[int]) ro.Observable[int] {
+				return ro.Map(func(t lo.Tuple3[int, int, int]) int { return sl2i([]int{t.A, t.B, t.C}) })(ro.ZipWith2[int](s[1], s[2])(s[0]))
+			}),
+		}
+	}},
+	{name: "Zip4", nsrc: 4, mk: func(k int, lg *c04Log, _ []int) []c04Variant {
+		return []c04Variant{
+			c04VS("Zip", func(s []ro.Observable[int]) ro.Observable[int] { return ro.Map(sl2i)(ro.Zip(s...)) }),
+			c04VS("Zip4", func(s []ro.Observable[int]) ro.Observable[int] {
+				return ro.Map(func(t lo.Tuple4[int, int, int, int]) int { return sl2i([]int{t.A, t.B, t.C, t.D}) })(ro.Zip4(s[0], s[1], s[2], s[3]))
+			}),
+			c04VS("ZipWith3", func(s []ro.Observable[int]) ro.Observable[int] {
+				return ro.Map(func(t lo.Tuple4[int, int, int, int]) int { return sl2i([]int{t.A, t.B, t.C, t.D}) })(ro.ZipWith3[int](s[1], s[2], s[3])(s[0]))
+			}),
+		}
+	}},
+	{name: "Zip5", nsrc: 5, mk: func(k int, lg *c04Log, _ []int) []c04Variant {
+		return []c04Variant{
+			c04VS("Zip", func(s []ro.Observable[int]) ro.Observable[int] { return ro.Map(sl2i)(ro.Zip(s...)) }),
+			c04VS("Zip5", func(s []ro.Observable[int]) ro.Observable[int] {
+				return ro.Map(func(t lo.Tuple5[int, int, int, int, int]) int { return sl2i([]int{t.A, t.B, t.C, t.D, t.E}) })(ro.Zip5(s[0], s[1], s[2], s[3], s[4]))
+			}),
+			c04VS("ZipWith4", func(s []ro.Observable[int]) ro.Observable[int] {
+				return ro.Map(func(t lo.Tuple5[int, int, int, int, int]) int { return sl2i([]int{t.A, t.B, t.C, t.D, t.E}) })(ro.ZipWith4[int](s[1], s[2], s[3], s[4])(s[0]))
+			}),
+		}
+	}},
+	{name: "Zip6", nsrc: 6, mk: func(k int, lg *c04Log, _ []int) []c04Variant {
+		return []c04Variant{
+			c04VS("Zip", func(s []ro.Observable[int]) ro.Observable[int] { return ro.Map(sl2i)(ro.Zip(s...)) }),
+			c04VS("Zip6", func(s []ro.Observable[int]) ro.Observable[int] {
+				return ro.Map(func(t lo.Tuple6[int, int, int, int, int, int]) int { return sl2i([]int{t.A, t.B, t.C, t.D, t.E, t.F}) })(ro.Zip6(s[0], s[1], s[2], s[3], s[4], s[5]))
+			}),
+			c04VS("ZipWith5", func(s []ro.Observable[int]) ro.Observable[int] {
+				return ro.Map(func(t lo.Tuple6[int, int, int, int, int, int]) int { return sl2i([]int{t.A, t.B, t.C, t.D, t.E, t.F}) })(ro.ZipWith5[int](s[1], s[2], s[3], s[4], s[5])(s[0]))
+			}),
+		}
+	}},
+	{name: "CombineLatest3", nsrc: 3, mk: func(k int, lg *c04Log, _ []int) []c04Variant {
+		return []c04Variant{
+			c04VS("CombineLatestAll", func(s []ro.Observable[int]) ro.Observable[int] {
+				return ro.Map(sl2i)(ro.CombineLatestAll[int]()(ro.Just(s...)))
+			}),
+			c04VS("CombineLatest3", func(s []ro.Observable[int]) ro.Observable[int] {
+				return ro.Map(func(t lo.Tuple3[int, int, int]) int { return sl2i([]int{t.A, t.B, t.C}) })(ro.CombineLatest3(s[0], s[1], s[2]))
+			}),
+			c04VS("CombineLatestWith2", func(s []ro.Observable[int]) ro.Observable[int] {
+				return ro.Map(func(t lo.Tuple3[int, int, int]) int { return sl2i([]int{t.A, t.B, t.C}) })(ro.CombineLatestWith2[int](s[1], s[2])(s[0]))
+			}),
+		}
+	}},
+	{name: "CombineLatest4", nsrc: 4, mk: func(k int, lg *c04Log, _ []int) []c04Variant {
+		return []c04Variant{
+			c04VS("CombineLatestAll", func(s []ro.Observable[int]) ro.Observable[int] {
+				return ro.Map(sl2i)(ro.CombineLatestAll[int]()(ro.Just(s...)))
+			}),
+			c04VS("CombineLatest4", func(s []ro.Observable[int]) ro.Observable[int] {
+				return ro.Map(func(t lo.Tuple4[int, int, int, int]) int { return sl2i([]int{t.A, t.B, t.C, t.D}) })(ro.CombineLatest4(s[0], s[1], s[2], s[3]))
+			}),
+			c04VS("CombineLatestWith3", func(s []ro.Observable[int]) ro.Observable[int] {
+				return ro.Map(func(t lo.Tuple4[int, int, int, int]) int { return sl2i([]int{t.A, t.B, t.C, t.D}) })(ro.CombineLatestWith3[int](s[1], s[2], s[3])(s[0]))
+			}),
+		}
+	}},
+	{name: "CombineLatest5", nsrc: 5, mk: func(k int, lg *c04Log, _ []int) []c04Variant {
+		return []c04Variant{
+			c04VS("CombineLatestAll", func(s []ro.Observable[int]) ro.Observable[int] {
+				return ro.Map(sl2i)(ro.CombineLatestAll[int]()(ro.Just(s...)))
+			}),
+			c04VS("CombineLatest5", func(s []ro.Observable[int]) ro.Observable[int] {
+				return ro.Map(func(t lo.Tuple5[int, int, int, int, int]) int { return sl2i([]int{t.A, t.B, t.C, t.D, t.E}) })(ro.CombineLatest5(s[0], s[1], s[2], s[3], s[4]))
+			}),
+			c04VS("CombineLatestWith4", func(s []ro.Observable[int]) ro.Observable[int] {
+				return ro.Map(func(t lo.Tuple5[int, int, int, int, int]) int { return sl2i([]int{t.A, t.B, t.C, t.D, t.E}) })(ro.CombineLatestWith4[int](s[1], s[2], s[3], s[4])(s[0]))
+			}),
+		}
+	}},
+	{name: "MergeWithN", nsrc: 6, mk: func(k int, lg *c04Log, _ []int) []c04Variant {
+		return []c04Variant{
+			c04VS("Merge", func(s []ro.Observable[int]) ro.Observable[int] { return ro.Merge(s...) }),
+			c04VS("MergeWith5", func(s []ro.Observable[int]) ro.Observable[int] {
+				return ro.MergeWith5(s[1], s[2], s[3], s[4], s[5])(s[0])
+			}),
+			c04VS("MergeWith4+1", func(s []ro.Observable[int]) ro.Observable[int] {
+				return ro.MergeWith1(s[5])(ro.MergeWith4(s[1], s[2], s[3], s[4])(s[0]))
+			}),
+			c04VS("MergeWith3+2", func(s []ro.Observable[int]) ro.Observable[int] {
+				return ro.MergeWith2(s[4], s[5])(ro.MergeWith3(s[1], s[2], s[3])(s[0]))
+			}),
 		}
 	}},
 	{name: "ZipAll", nsrc: 2, mk: func(k int, lg *c04Log, _ []int) []c04Variant {
